@@ -1,5 +1,6 @@
 import RactorModel.Model.Pg
 import RactorModel.Model.PgConc
+import RactorModel.Model.PgText
 import Driver.Common
 
 /-! Driver for the `Pg` model (C11).
@@ -463,8 +464,15 @@ def step (d : DState) (op impl : String) : DState × StepOut :=
             let (_, _, spec) := runOps { p with remote := st'.remote } mop
             if showEvs im.evs == showEvs spec then [] else ["notifications-wrong"]
           | none => []
+        -- the notification clause as the property TEXT has it (one join / leave call: membership before and
+        -- after, who was monitoring before), on the implementation's own observations
+        let o4 := match d.prev, mop with
+          | some p, [.join ..] => textNotifFailing p im.snap im.evs
+          | some p, [.leave ..] => textNotifFailing p im.snap im.evs
+          | some p, [.exit a] => textExitFailing p im.snap a im.evs
+          | _, _ => []
         ({ st := st', prev := some im.snap },
-         { model, oracle := o1 ++ o2 ++ o3,
+         { model, oracle := o1 ++ o2 ++ o3 ++ o4,
            nontrivial := mop.any (nontrivialOp d.st) || !evs.isEmpty || mop.length > 1 })
 
 def run (ops impl : Array String) : IO Tally :=
